@@ -121,7 +121,7 @@ def Bounds.empty (b : Bounds) : Bool := !(b.minX.le b.maxX) || !(b.minY.le b.max
 `!b.Empty() && !b2.Empty() && b.Min.X <= b2.Max.X && b.Min.Y <= b2.Max.Y && b.Max.X >= b2.Min.X && b.Max.Y >= b2.Min.Y` -/
 def Bounds.overlaps (b b2 : Bounds) : Bool :=
   !b.empty && !b2.empty &&
-  (b.minX.le b2.maxX && b.minY.le b2.maxY && b2.minX.le b.maxX && b2.minY.le b.maxY)
+  b.minX.le b2.maxX && b.minY.le b2.maxY && b2.minX.le b.maxX && b2.minY.le b.maxY
 
 /-- `area.go: (Polygon).ringBounds` -/
 def ringBounds (pg : Poly) : List Bounds := pg.map fun r => newBounds.extendPoints r
